@@ -500,7 +500,35 @@ def slim(c):
     return {k: c[k] for k in keep if k in c and c[k] is not None}
 
 
+def lookback_tie(ck):
+    """the look-back the model states (PromCase.lookback_ms = 300000 ms) is the one the engine of /api/v1/query(_range) runs with:
+    prometheusQueryRangeRouter.go passes EngineOpts.LookbackDelta = 0 and the engine of the pinned Prometheus module turns 0
+    into defaultLookbackDelta = 5 * time.Minute (theorem promql_over_raw_samples_any_lookback covers any other value)"""
+    import vcheck
+    try:
+        router = open(os.path.join(vcheck.REPO, "reader", "router", "prometheusQueryRangeRouter.go")).read()
+    except OSError as ex:
+        ck.obligation("look-back tie: prometheusQueryRangeRouter.go readable", False, str(ex))
+        return
+    vals = re.findall(r"LookbackDelta:\s*([^,\n]+),", router)
+    rc, out = vcheck.sh(["go", "list", "-m", "-f", "{{.Dir}}", "github.com/prometheus/prometheus"], cwd=vcheck.REPO, env=vcheck.go_env(), timeout=120)
+    moddir = out.strip().splitlines()[-1] if rc == 0 and out.strip() else ""
+    default, zero_rule = None, False
+    try:
+        eng = open(os.path.join(moddir, "promql", "engine.go")).read()
+        m = re.search(r"defaultLookbackDelta\s*=\s*(\d+)\s*\*\s*time\.Minute", eng)
+        default = int(m.group(1)) * 60000 if m else None
+        zero_rule = re.search(r"if opts\.LookbackDelta == 0 \{\s*opts\.LookbackDelta = defaultLookbackDelta", eng) is not None
+    except OSError:
+        pass
+    ck.extra["lookback"] = {"router_LookbackDelta": vals, "engine_default_ms": default, "zero_means_default": zero_rule}
+    ck.obligation("look-back tie: the router builds the PromQL engine with LookbackDelta 0 and the pinned engine reads 0 as its 5 min default = PromCase.lookback_ms (300000 ms)",
+                  vals == ["0"] and default == 300000 and zero_rule,
+                  "router passes %s, engine default %s ms, zero rule %s" % (vals, default, zero_rule))
+
+
 def run(ck):
+    lookback_tie(ck)
     ck.trusted += [
         "C17 selection: coq/model/PromSem.v is the reading of ClickHouse semantics (comparison/IN/match = RE2 search/intDiv/bitShiftLeft on UInt8/groupBitOr/alias visibility) relative to which prom_select_exact* and prof_select_exact* are stated; no ClickHouse runs in the sandbox",
         "C17 selection: regular-expression matching (RE2 search for ClickHouse match(), anchored match for Prometheus) is an oracle: Section variables in the theorems, Go regexp / labels.Matcher tables in the correspondence",
@@ -657,7 +685,7 @@ def run_shard(ck, cases, idx):
             sx_obs = sx_list(["(%s %d %s)" % (sx_labels(o["labels"]), o["fp"], sx_list(["(%d %d)" % (a, b) for a, b in o["samples"]]))
                               for o in c.get("obs") or []])
             if c.get("multi"):
-                series = sx_list(["(%d %d 2 %s)" % (d, s0["fp"], sx_labels(s0["labels"])) for s0 in c["ldb"] for d in s0["days"]])
+                series = sx_list(["(%d %d %d %s)" % (d, s0["fp"], 1 if s0.get("log") else 2, sx_labels(s0["labels"])) for s0 in c["ldb"] for d in s0["days"]])
                 lines.append("(msel %d %s %s %s %s %s %s)" % (cid, cl, sx_hints(h), sx_matchers(c.get("ms")), sx_rows, series, sx_obs))
             else:
                 lines.append("(sel %d %s %s %s %s %s %s)" % (
